@@ -72,6 +72,19 @@ def h_reverse_axis(B, n=4, axis="lat"):
     B.eq(f"{axis} stored in reverse order: reconstruction at each label", r2, r1, ignore_order=True)
 
 
+def h_list_item_reversed(B, n=4, which=1):
+    """a list input in which ONE element stores the same samples in the opposite order: pairing is by label"""
+    A = da2d(B, "xa", n, 2)
+    Bv = da2d(B, "xb", n, 2, feat="y")
+    items = [A, Bv]
+    m1 = _fit("EOF", items, "time")
+    items2 = list(items)
+    items2[which] = items2[which].isel(time=slice(None, None, -1))
+    m2 = _fit("EOF", items2, "time")
+    B.covers("Concatenator.transform (alignment of list items by sample label)")
+    _cmp(B, f"list item {which} stored in reverse sample order", m1, m2)
+
+
 def h_permute_samples(B, cls="EOF", n=4, p=2, perm=(2, 0, 3, 1), rot=None):
     cplx = cls == "ComplexEOF"
     X = da2d(B, "x", n, p, cplx)
@@ -186,6 +199,8 @@ def configs(tier):
     add("h_permute_features", "EOFRotator|permute features", rot={"n_modes": 2, "power": 1})
     add("h_permute_features", "EOF|permute features|weights labelled by coordinate", weights=True)
     add("h_reverse_axis", "EOF|3d|lat stored north-to-south", axis="lat")
+    add("h_list_item_reversed", "EOF|list|second item stores the samples in reverse order", which=1)
+    add("h_list_item_reversed", "EOF|list|first item stores the samples in reverse order", which=0)
     add("h_reverse_axis", "EOF|3d|lon stored in reverse", axis="lon")
     add("h_permute_samples", "EOFRotator|permute samples", p=3, rot={"n_modes": 2, "power": 1})
     add("h_names", "EOFRotator|names=s,f", p=3, rot={"n_modes": 2, "power": 1})
